@@ -774,6 +774,13 @@ Fixpoint dict_set (l : list (pv * pv)) (k v : pv) : option (list (pv * pv)) :=
       end
   end.
 
+Fixpoint unzip_pairs (l : list pv) : option (list (pv * pv)) :=
+  match l with
+  | [] => Some []
+  | k :: v :: r => option_map (cons (k, v)) (unzip_pairs r)
+  | _ => None
+  end.
+
 Fixpoint dict_build (ps acc : list (pv * pv)) : option (list (pv * pv)) :=
   match ps with
   | [] => Some acc
@@ -1213,15 +1220,21 @@ Section Interp.
                     | y :: r => do (v, _) <- eval ((n, y) :: e1) elt; do t <- go r; Ok (v :: t)
                     end) l);
         Ok (match k with KTuple => PTuple vs | KList => PList vs end, e1)
-    | EDict ks vs =>
-        do (kl, e1) <- eval_list e ks;
-        do (vl, e2) <- eval_list e1 vs;
-        if Nat.eqb (List.length kl) (List.length vl) then
-          match dict_build (combine kl vl) [] with
-          | Some d => Ok (PDict d, e2)
-          | None => Unsupported "dict key"
-          end
-        else Unsupported "dict literal"
+    | EDict items vs =>
+        (* [items] = k1; v1; k2; v2; ... in source order: CPython (3.8 and later) evaluates key, value,
+           key, value, ...; the second component is always [Enil] (the translator emits nothing else) *)
+        match vs with
+        | Enil =>
+            do (l, e1) <- eval_list e items;
+            match unzip_pairs l with
+            | Some ps => match dict_build ps [] with
+                         | Some d => Ok (PDict d, e1)
+                         | None => Unsupported "dict key"
+                         end
+            | None => Unsupported "dict literal"
+            end
+        | Econs _ _ => Unsupported "dict literal"
+        end
     | EStar _ => Unsupported "starred expression"
     end
   with eval_list (e : env) (xs : exprs) {struct xs} : res (list pv * env) :=
